@@ -56,6 +56,30 @@ check("C17", "Lean 4 theorems 'error => state unchanged' for three state machine
       "Lean kernel; standard axioms; statement order inside mutators is modelled by hand (tied by correspondence on malformed histories); Crystal's constructor only by the oracle.",
       "DESIGN.md §6 C17")
 
+check("C19", "Lean 4 theorems over definitions regenerated from util.py on every run (polynomial identities by ring) + translation validation",
+      "For each of solve_h/k/l_fixed_q and each coefficient branch one polynomial identity (*_ident) is checked by `ring` on the GENERATED divisor / coefficient / "
+      "discriminant; from it: both returned triples keep the fixed index and lie on plane and sphere, every intersection point is one of the two, they coincide iff the "
+      "discriminant vanishes, a negative discriminant means no intersection, divisor = 0 iff both free coefficients vanish (invertible UB); *_solve_spec states it for the "
+      "function with its control flow. The generated code is executed at Float against the real functions through UBCalculation's wrapper; a residual oracle with an independent line-sphere intersection runs on the implementation.",
+      "Lean kernel; standard axioms; translator py2lean.py (validated by execution each run) incl. the skeleton check of the control flow and of the wrapper's dispatch/arguments; "
+      "np.sqrt on a non-negative discriminant = real sqrt; exact float zero tests.",
+      "DESIGN.md §6 C19")
+
+check("C04", "Lean 4 theorems over get_hkl / rotation constructors regenerated from the source + translation validation",
+      "Theorems (Props/C04.lean, Lemmas/Rotations.lean) on GENERATED definitions: the six rotation constructors are the right-handed Rodrigues rotations with the axis senses of You (1999); "
+      "get_hkl = UB^-1 Z^T (k_f - k_i) for every position, wavelength, UB; |UB.hkl| = (4 pi/lambda) sin(theta) with cos(2 theta) = cos(delta) cos(nu); 1/lambda scaling; 2 pi periodicity in "
+      "every axis; get_q_phi = (lambda/2 pi) UB hkl. Generated code executed at Float against the implementation; numpy forward-model oracle incl. call sequences with lattice/U changes.",
+      "Lean kernel; standard axioms; translator (matrix expressions, get_rotation_matrices order vs Position.fields); numpy inv = adjugate/det; degree/radian rounding.",
+      "DESIGN.md §6 C04")
+
+check("C06", "Lean 4 theorems over the B-matrix code regenerated from crystal.py (closed form + certificate-checked metric identity) + translation validation",
+      "Theorems (Props/C06.lean) on the GENERATED `reciprocalB`: for every admissible cell (positive lengths, angles in (0,pi), positive volume) B is upper triangular with positive "
+      "diagonal and B^T B G = 4 pi^2 1 with G the direct metric tensor (all nine entries); d(hkl) = 2 pi/|B.hkl| through the code's inv(inv b inv b^T) route; zero vector -> ZeroDivisionError; "
+      "the seven system tables and the accepted call forms (incl. inferred Hexagonal (a,a,c,120)) expand to the crystallographic cells. Executed at Float against Crystal/set_lattice for all call forms; numpy metric-tensor oracle.",
+      "Lean kernel; standard axioms; translator for _set_reciprocal_cell/_get_cell_for_system/_set_cell_for_system tables; call-form dispatch and plane distance are hand models (tie H); "
+      "interplanar angle only by the oracle; acos/sqrt domain outside admissible cells not modelled.",
+      "DESIGN.md §6 C06")
+
 NOT_APPLICABLE = []   # filled below for properties without a registered check
 
 ALL = ["C%02d" % i for i in range(1, 21)]
